@@ -2,7 +2,9 @@ package checks
 
 import (
 	"fmt"
+	"sort"
 	"strings"
+	"sync"
 
 	"bmsym/smt"
 	"bmsym/sym"
@@ -48,15 +50,19 @@ func runC10(c *Ctx, ev *Evidence) ([]Violation, error) {
 			}
 			return smt.Or(ds...)
 		}
-		for _, v := range []string{"red", "blue"} {
-			extra = append(extra, smt.Eq(smt.UF("ru", smt.String, smt.StrC(v)), smt.StrC(v)))
-		}
+		// ground facts about the two uninterpreted string functions on the
+		// candidate values, taken from the real removeUnicode / strings.ToLower
+		extra = append(extra, c10GroundFacts(c, ev)...)
 		var propVars []*smt.Term
 		smt.Walk(smt.And(append(append([]*smt.Term{}, r.Ob.PC...), r.Ob.Cond)...), func(x *smt.Term) {
 			if x.Op == "var" && x.Sort == smt.String {
 				switch {
 				case strings.HasPrefix(x.Name, "decl.val"), strings.Contains(x.Name, ".enum"):
-					extra = append(extra, pick(x, "red", "blue"))
+					if strings.HasPrefix(x.Name, "decl.val") {
+						extra = append(extra, pick(x, c10ValueCands...))
+					} else {
+						extra = append(extra, pick(x, "red", "blue"))
+					}
 				case strings.HasPrefix(x.Name, "decl.prop"):
 					propVars = append(propVars, x)
 				case strings.HasPrefix(x.Name, "el.prop"), strings.HasPrefix(x.Name, "glob.prop"):
@@ -264,4 +270,54 @@ func replayC10(c *Ctx, ev *Evidence, r UnitResult, sig string) (*Violation, erro
 	}
 	ev.AddReplayed(1)
 	return &Violation{Sig: sig, Detail: fmt.Sprintf("input %q: style in the output is %q, the statement requires %q (policy %v)", input, got, expected, pol), Replay: []NativeReq{req}}, nil
+}
+
+// c10ValueCands: declaration values tried when a symbolic counterexample is
+// made concrete. Besides plain keywords: an upper-case value and CSS escapes
+// with lower- and upper-case hex digits (case folding and escape decoding do
+// not commute on them).
+var c10ValueCands = []string{"red", "blue", "RED", "b\\6cue", "b\\6Cue"}
+
+var c10Facts struct {
+	sync.Mutex
+	done  bool
+	facts []*smt.Term
+}
+
+func c10GroundFacts(c *Ctx, ev *Evidence) []*smt.Term {
+	c10Facts.Lock()
+	defer c10Facts.Unlock()
+	if c10Facts.done {
+		return c10Facts.facts
+	}
+	c10Facts.done = true
+	set := map[string]bool{}
+	for _, v := range c10ValueCands {
+		set[v] = true
+		set[strings.ToLower(v)] = true
+	}
+	var keys []string
+	for k := range set {
+		keys = append(keys, k)
+	}
+	sort.Strings(keys)
+	var reqs []NativeReq
+	for _, k := range keys {
+		reqs = append(reqs, NativeReq{"op": "removeUnicode", "s": k})
+	}
+	res, err := RunNative(c.Repo, c.VerifDir, reqs, "")
+	if err != nil {
+		ev.Inconclusive("C10: native removeUnicode run failed: " + err.Error())
+		return nil
+	}
+	lowerFact := func(x string) *smt.Term {
+		return smt.Eq(smt.UF("lower", smt.String, smt.StrC(x)), smt.StrC(strings.ToLower(x)))
+	}
+	var fs []*smt.Term
+	for i, k := range keys {
+		out, _ := res[i]["out"].(string)
+		fs = append(fs, smt.Eq(smt.UF("ru", smt.String, smt.StrC(k)), smt.StrC(out)), lowerFact(k), lowerFact(out))
+	}
+	c10Facts.facts = fs
+	return fs
 }
